@@ -324,6 +324,12 @@ structure Chk where
   absent : Bool
   ok : Bool
 
+/-- Record what the destination names now. -/
+def addHist (o : Option Nat) (h : List Nat) : List Nat :=
+  match o with
+  | none => h
+  | some i => if h.contains i then h else i :: h
+
 def chkInit (s0 : FS) (dest : Path) (old new : Obs) : Chk :=
   let h := (lookup s0.names dest).toList
   let a := (lookup s0.names dest).isNone
@@ -332,7 +338,7 @@ def chkInit (s0 : FS) (dest : Path) (old new : Obs) : Chk :=
 
 def chkStep (dest : Path) (old new : Obs) (k : Chk) (c : Call) : Chk :=
   let s' := step k.s c
-  let h := (lookup s'.names dest).toList ++ k.hist
+  let h := addHist (lookup s'.names dest) k.hist
   let a := k.absent || (lookup s'.names dest).isNone
   { s := s', hist := h, absent := a,
     ok := k.ok && h.all (goodIno old new s') && (!a || allowed old new none) && allowed old new (vview s' dest) }
